@@ -130,6 +130,16 @@ def post(ck, op, limits, shape, newp, newg, dup, oc, tag):
     if size:
         tot = z3.Sum([pysym.Zt(h.records[p].size) for p in h.records]) if h.records else z3.IntVal(0)
         O("wf_active_size", pysym.Zt(h.active_size) == tot)
+    # view: every record that is still tracked carries the truth about its file - the size (and key) reported by the latest event for
+    # the path of this event, the unchanged earlier values for every other path
+    vg = []
+    for q_ in h.records:
+        r_ = h.records[q_]
+        if q_ == newp and op in ("_add_record", "_modify_record"):
+            vg += [pysym.Zt(r_.key) == K(newp)] + ([pysym.Zt(r_.size) == SZ(newp, "'")] if size else [])
+        else:
+            vg += [pysym.Zt(r_.key) == K(q_)] + ([pysym.Zt(r_.size) == SZ(q_)] if size else [])
+    O("view_records_truth", z3.And(vg) if vg else z3.BoolVal(True))
     removed = [p for (c, p) in fake.calls if c == "remove"]
     before = {p for g in shape for p in shape[g]} | {newp}
     ck.struct("ring.%s.deletes_only_tracked" % op, all(p in before for p in removed) and not (set(removed) & set(h.records)) and len(removed) == len(set(removed)),
